@@ -206,6 +206,19 @@ def run(ctx):
                     k_fd(ctx, cfg, {"offset": 5, "data": (bytes(range(256)) * 256)[:65535 - over].hex(), "seg_meta": sm}, model_fed=bool(crc))
                     ok, res = attempt(lambda: bytes(C.build("file_data", cfg, {"offset": 5, "data": "00" * (65536 - over), "seg_meta": sm}).pack()))
                     ctx.check("fd.refusal", not ok, "oversize_data_field_packed", f"crc={crc}", {"cfg": cfg, "data_len": 65536 - over})
+    # block-boundary sizes: total PDU length / data-field length / file-data length around multiples of 256 ... 32768
+    from spverif.core.util import block_boundary_sizes
+    j = 0
+    for crc in (0, 1):
+        for large in (0, 1):
+            cfg = C.rand_cfg(r, segctrl=True, crc=crc, large=large)
+            hl = R.header_len(cfg["idw"], cfg["seqw"])
+            fss = 8 if large else 4
+            for n in block_boundary_sizes((0, fss + 2 * crc, hl + fss + 2 * crc), 65535 - fss - 2 * crc, ctx.quick):
+                j += 1
+                if ctx.mine(j) and (not ctx.quick or j % 4 == 0):
+                    ctx.table("block_boundary_data_len", n)
+                    k_fd(ctx, cfg, {"offset": C.rand_fss(r, large), "data": r.randbytes(n).hex(), "seg_meta": None}, model_fed=bool(j & 1))
     for _ in range(ctx.n(4000, 400_000)):
         cfg = C.rand_cfg(r, segctrl=True)
         k_fd(ctx, cfg, C.rand_params(r, "file_data", cfg), model_fed=r.random() < 0.5)
